@@ -7,7 +7,6 @@ import (
 	"github.com/orda-io/orda/client/pkg/orda"
 	"github.com/orda-io/orda/client/pkg/vhook"
 
-	"github.com/orda-io/orda/server/constants"
 	"github.com/orda-io/orda/server/managers"
 	"github.com/orda-io/orda/server/schema"
 )
@@ -58,7 +57,8 @@ func (its *Manager) GetLatestDatatype() (iface.Datatype, uint64, errors.OrdaErro
 		}
 		datatype.ResetWired()
 	}
-	opList, sseqList, err := its.managers.Mongo.GetOperations(its.ctx, its.datatypeDoc.DUID, lastSseq+1, constants.InfinitySseq)
+	// only up to the recorded end of the log: anything beyond it was never committed
+	opList, sseqList, err := its.managers.Mongo.GetOperations(its.ctx, its.datatypeDoc.DUID, lastSseq+1, its.datatypeDoc.Sseq.End)
 	if err != nil {
 		return nil, 0, err
 	}
